@@ -924,9 +924,40 @@ def check_nullable_data(chk, prog, summ, fns, rule):
         n += 1
         before = len(chk.obls)
         C05.check_nullflow(chk, prog, summ, f, nullable, rule)
+        # arms that cannot run when the function is reached from the list interface: a helper shared with the map / vector
+        # functions that is told by a flag parameter which comparison to make (remove_matching(self, item, data_first)), where
+        # every call from a list-interface function passes the same constant for the flag
+        dead = []
+        names_ = {g_.name for g_ in fns}
+        for y in walk(f.body):
+            if y.get("k") != "if":
+                continue
+            c_ = X.strip(y["cond"])
+            neg_ = False
+            while c_ is not None and c_.get("k") == "un" and c_.get("op") == "!":
+                neg_, c_ = not neg_, X.strip(c_["ch"][0])
+            if c_ is None or c_.get("k") != "ref" or c_.get("rk") != "param":
+                continue
+            vals_ = set()
+            for g_ in f.unit.functions.values():
+                if g_.body is None or g_ is f or g_.name not in names_:
+                    continue
+                for cc in X.calls_in(g_.body):
+                    if X.callee_name(cc) == f.name and c_.get("pi") is not None and c_["pi"] + 1 < len(cc["ch"]):
+                        vals_.add(X.const_val(cc["ch"][c_["pi"] + 1]))
+            if len(vals_) == 1 and None not in vals_:
+                taken_then = bool(vals_.pop()) != neg_
+                arm = y.get("else") if taken_then else y.get("then")
+                if arm is not None:
+                    ls_ = [z.get("l") for z in walk(arm) if z.get("l")]
+                    if ls_:
+                        dead.append((min(ls_), max(ls_)))
         # keep only the element-data sites; chain pointers are D1's
         keep = []
         for o in chk.obls[before:]:
+            m_ = re.search(r":(\d+)$", o.loc or "")
+            if m_ and any(a_ <= int(m_.group(1)) <= b_ for a_, b_ in dead):
+                continue
             if re.search(r"->data|\[", o.site):
                 keep.append(o)
         chk.obls[before:] = keep
